@@ -473,6 +473,12 @@ def write_replay(prop, seed, n, obj):
     obj = dict(obj)
     obj["property"] = prop.id
     obj["how_to_replay"] = "./check %s --replay %s" % (prop.id, p)
+    try:
+        obj["repo_head"] = subprocess.run(["git", "-C", REPO, "rev-parse", "--short", "HEAD"], capture_output=True, text=True).stdout.strip()
+        obj["repo_dirty"] = subprocess.run(["git", "-C", REPO, "status", "--porcelain"], capture_output=True, text=True).stdout.strip()[:400]
+        obj["written_at"] = time.strftime("%Y-%m-%dT%H:%M:%SZ", time.gmtime())
+    except Exception:
+        pass
     json.dump(obj, open(p, "w"), indent=1)
     return p
 
@@ -490,6 +496,12 @@ def run_prop(prop, tier="quick", seed=None, replay=None):
     seed = int(seed if seed is not None else os.environ.get("VERIF_SEED", "1") or 1)
     if replay:
         return do_replay(prop, replay, seed)
+    # replay files of earlier runs with this seed are removed, so that what is in replays/<id>/ belongs to this run
+    rd = os.path.join(VERIF, "replays", prop.id)
+    if os.path.isdir(rd):
+        for f in os.listdir(rd):
+            if f.startswith("%d-" % seed) and f.endswith(".json"):
+                os.remove(os.path.join(rd, f))
     violations = []       # (replay path, suffix)
     known_hits = []
     broken = []           # (what, detail)
